@@ -181,11 +181,16 @@ var c19Faults = []struct {
 	text string
 }{
 	{"illegal-char-in-tag", "{$x # 1}"},
+	{"invalid-utf8-in-tag", "{$x \xe9 1}"},
+	{"invalid-utf8-lone-lead-in-tag", "{$x + \xc3}"},
 	{"stray-closing-brace", "text } more"},
 	{"unterminated-string", "{'abc}"},
 	{"unknown-command", "{/fooo}"},
 	{"unknown-symbol", "{1 ! 2}"},
 	{"bad-number", "{08}"},
+	{"quoted-expr-data", "{call .zz data=\"$x +\"/}"},
+	{"quoted-expr-value", "{call .zz}{param k value=\"(1\"/}{/call}"},
+	{"quoted-expr-css", "{css $x +, c}"},
 	{"unterminated-comment", "/* never closed"},
 	{"unterminated-tag", "{if $x"},
 }
@@ -196,7 +201,7 @@ func genC19parse(g *G) {
 	for i := 0; i < nb; i++ {
 		b := bg.bundle()
 		s := b.files[0].source()
-		if _, err := parse.SoyFile("x", s); err != nil {
+		if _, err := soyFileSafe("x", s); err != nil {
 			continue
 		}
 		lines := strings.Split(s, "\n")
